@@ -19,6 +19,7 @@ type Flat = Vec<(Vec<u8>, Option<Vec<u8>>)>;
 
 static GIT_CALLS: AtomicU64 = AtomicU64::new(0);
 static CASE_VARIANT_QUERIES: AtomicU64 = AtomicU64::new(0);
+static MULTI_TYPED: AtomicU64 = AtomicU64::new(0);
 
 thread_local! {
     static SCRATCH: (vkit::scratch::Dir, PathBuf) = {
@@ -329,6 +330,22 @@ fn compare(text: &[u8], git: &Flat) -> Verdict {
             if strings != got {
                 return bad("get-all", format!("{}: strings_by({s:?},{:?},{v:?}) differs from raw_values_by", show(text), sub.map(show)));
             }
+            // typed multi-value reads: `git config --type=int|bool --get-all` = the typed rule applied to every listed value (all must parse)
+            let all: Vec<Option<&[u8]>> = git.iter().filter(|(k, _)| k == key).map(|(_, v)| v.as_deref()).collect();
+            let explicit_only = all.iter().all(Option::is_some);
+            if explicit_only {
+                let want_ints: Option<Vec<i64>> = all.iter().map(|v| ref_int(*v)).collect();
+                let ints = file.integers_by(&s, sub_b, &v).and_then(Result::ok);
+                if ints != want_ints {
+                    return bad("get-all-int", format!("{}: integers_by({s:?},{:?},{v:?}) = {ints:?} but git --type=int --get-all {} = {want_ints:?}", show(text), sub.map(show), show(key)));
+                }
+                let want_bools: Option<Vec<bool>> = all.iter().map(|v| ref_bool(*v)).collect();
+                let bools: Option<Vec<bool>> = file.values_by::<gix_config_value::Boolean>(&s, sub_b, &v).ok().map(|b| b.into_iter().map(|b| b.0).collect());
+                if bools != want_bools && !all.iter().any(|v| bool_class(*v) == "bool-range") {
+                    return bad("get-all-bool", format!("{}: values_by::<Boolean>({s:?},{:?},{v:?}) = {bools:?} but git --type=bool --get-all {} = {want_bools:?}", show(text), sub.map(show), show(key)));
+                }
+                MULTI_TYPED.fetch_add((want.len() > 1) as u64, Ordering::Relaxed);
+            }
             let one = file.raw_value_by(&s, sub_b, &v).ok().map(|c| c.to_vec());
             // documented (Body::value): "we consider values without separator `=` non-existing" - single-value lookup skips implicit booleans
             if last.1.is_some() && one.as_deref() != last.1.as_deref() {
@@ -370,7 +387,12 @@ fn compare(text: &[u8], git: &Flat) -> Verdict {
     }
     let has = |f: &dyn Fn(&gix_config::parse::Event<'_>) -> bool| ev.iter().any(|e| f(e));
     use gix_config::parse::Event as E;
-    let class = if has(&|e| matches!(e, E::ValueNotDone(_))) {
+    let ncont = ev.iter().filter(|e| matches!(e, E::ValueDone(_))).count();
+    let class = if multi && ncont > 1 {
+        "multi-value-several-continued"
+    } else if multi && ncont == 1 {
+        "multi-value-one-continued"
+    } else if has(&|e| matches!(e, E::ValueNotDone(_))) {
         "continuation"
     } else if multi {
         "multi-value"
@@ -520,8 +542,10 @@ pub fn run(run: &'static Run) {
     let lval = run.pick(3, 4);
     let lstruct = run.pick(3, 4);
     let lhdr = run.pick(5, 6);
+    let lmulti = run.pick(3, 4);
     run.rule(format!(
         "value: `[a]LF TAB k =` + all sequences of <= {lval} tokens over 15 value tokens (v w SP TAB '\"' '\\\"' '\\\\' '\\n' '\\t' backslash-LF backslash-CRLF # ; LF+'j=x' 'v  w') + (LF | nothing | CRLF); \
+         multi: `[a]LF` + all sequences of 2..={lmulti} entries over 10 entries for the same key k (plain `k = 1`; one continuation `1\\LF2`; two continuation lines `3\\LF4\\LF5`; quoted value continued inside the quotes; words `x \\LFy`; CRLF continuation; `tr\\LFue`; another key j with continuation; implicit `k`; a second `[A]` header splitting the section), read through raw_values_by/strings_by/integers_by/values_by::<Boolean>; \
          structure: all sequences of <= {lstruct} lines over 14 lines ([a] [A] [a \"s\"] [a \"S\"] [a.s] [a.S] [b] k=1 K=0 k j=true ' k = 2k ' #c BOM); \
          header: every string of <= {lhdr} tokens starting with '[' over ([ a B . - 1 SP '\"' '\\' ]) + LF k=v LF; \
          typed: 22 boolean words + implicit, all strings of <= 2/3 tokens over (1 0 - k G + m x), i64/i32 boundary numbers x suffixes, 10 path forms, each through git --type=bool|int|path; \
@@ -551,6 +575,27 @@ pub fn run(run: &'static Run) {
         run.sub(name, |emit| texts.into_iter().for_each(|t| emit(Text { text: B(t) })), eval);
     };
     batched("value", value_texts);
+
+    // the same key several times in one section / split over two sections of the same name, every combination of plain and continued values
+    let entries: [&[u8]; 10] = [
+        b"\tk = 1\n",
+        b"\tk = 1\\\n2\n",
+        b"\tk = 3\\\n4\\\n5\n",
+        b"\tk = \"x \\\n y\"\n",
+        b"\tk = x \\\ny\n",
+        b"\tk = 6\\\r\n7\r\n",
+        b"\tk = tr\\\nue\n",
+        b"\tj = 8\\\n9\n",
+        b"\tk\n",
+        b"[A]\n",
+    ];
+    let mut mt: Vec<Vec<u8>> = Vec::new();
+    enumerate::strings(&entries, 2, lmulti, |s| {
+        let mut t = b"[a]\n".to_vec();
+        t.extend_from_slice(s);
+        mt.push(t);
+    });
+    batched("multi", mt);
 
     let lines: [&[u8]; 14] = [
         b"[a]\n", b"[A]\n", b"[a \"s\"]\n", b"[a \"S\"]\n", b"[a.s]\n", b"[a.S]\n", b"[b]\n", b"k=1\n", b"K=0\n", b"k\n", b"j=true\n", b" k = 2k \n", b"#c\n", b"\xef\xbb\xbf",
@@ -615,8 +660,9 @@ pub fn run(run: &'static Run) {
         run.cov("predicted_rejects_not_confirmed_with_git", g.unverified_rejects.len());
     }
     run.cov("case_variant_queries", CASE_VARIANT_QUERIES.load(Ordering::Relaxed));
+    run.cov("typed_multi_value_reads", MULTI_TYPED.load(Ordering::Relaxed));
     if !run.is_replay() {
-        for c in ["continuation", "multi-value", "implicit-bool", "escapes", "quotes", "subsection", "plain", "git-rejects", "typed/number", "typed/true-word"] {
+        for c in ["multi-value-several-continued", "multi-value-one-continued", "continuation", "multi-value", "implicit-bool", "escapes", "quotes", "subsection", "plain", "git-rejects", "typed/number", "typed/true-word"] {
             run.require(&format!("outcome class {c} was reached"), run.outcome_count(c) > 0);
         }
         run.require("case variants of section/variable/subsection were queried", CASE_VARIANT_QUERIES.load(Ordering::Relaxed) > 0);
